@@ -137,7 +137,7 @@ fn m3_alphabet(thorough: bool) -> Vec<Combo> {
     let mut v = vec![p, p.with(Ord, Arg::Ignore), p.with(Ord, Arg::Reverse), p.with(Ord, Arg::Key), p.with(Ord, Arg::By), p.with(Ord, Arg::ReverseKey)];
     if thorough {
         v.push(p.with(Ord, Arg::ReverseBy));
-        v.push(p.with(Ord, Arg::Key).with(PartialOrd, Arg::ReverseKey).with(Eq, Arg::Key).with(PartialEq, Arg::By));
+        v.push(p.with(Ord, Arg::ReverseKey).with(PartialOrd, Arg::Key).with(Eq, Arg::Key).with(PartialEq, Arg::By));
     }
     v
 }
@@ -274,6 +274,12 @@ pub fn evaluate_cases(ctx: &Ctx, rep: &mut Report, cases: &[Case], hash_only: bo
                 // the generators only emit placements the documentation allows: a refusal means the documented
                 // comparator / hash input of this field can not be had at all (acceptance as such is C05's subject)
                 let c = &cases[i];
+                // (only where the reference acceptance rule itself allows every field's combination)
+                let documented = c.ts.variants.iter().all(|v| v.fields.iter().all(|f| c.derived.iter().all(|&t| ref_accept(&f.combo, t))));
+                if !documented {
+                    rep.add("generator_placement_not_allowed_by_the_reference(skipped)", 1);
+                    continue;
+                }
                 rep.outcome("expander-rejected");
                 rep.case(&format!("{} {} {}", c.entry.name(), names(&c.derived).join(","), items[i]), true);
                 rep.violation(Violation { symptom: "documented-placement-refused".into(), atoms: atoms_of(c), what: format!("{} derive_ex({}) via {}: the documentation allows this placement, the expander refuses it: {}", c.ts.describe(), names(&c.derived).join(", "), c.entry.name(), runner::first_line(e)), detail: json!({"gen": c.gen, "tier": ctx.tier.name(), "vector": c.vector, "entry": c.entry.name(), "derived": names(&c.derived), "item": items[i], "observation": e}), standalone: None });
